@@ -241,7 +241,10 @@ theorem release_touches_only_target (s : St) (p : Packet) :
     · rename_i s1 hr; exact icsCredit_bal hr a' d' h1 h2
     · rfl
   have hwrite : ∀ (s1 : St) (b : Bool), (writeRecvAck s1 p b).1.bal = s1.bal := by
-    intro s1 b; unfold writeRecvAck; split <;> rfl
+    intro s1 b; unfold writeRecvAck
+    split
+    · rfl
+    · split <;> rfl
   have hrecv : getBal (recvRelease s p).1.bal a' d' = getBal s.bal a' d' := by
     unfold recvRelease
     split
